@@ -132,7 +132,7 @@ func StripLeadingComments(sql string) string {
 				return sql
 			}
 			sql = sql[index+2:]
-		case '-':
+		case '-', '#':
 			// Single line comment
 			index := strings.Index(sql, "\n")
 			if index == -1 {
@@ -148,7 +148,7 @@ func StripLeadingComments(sql string) string {
 }
 
 func hasCommentPrefix(sql string) bool {
-	return len(sql) > 1 && ((sql[0] == '/' && sql[1] == '*') || (sql[0] == '-' && sql[1] == '-'))
+	return len(sql) > 1 && ((sql[0] == '/' && sql[1] == '*') || (sql[0] == '-' && sql[1] == '-') || sql[0] == '#')
 }
 
 // CommentDirectives is the parsed representation for execution directives
